@@ -835,12 +835,20 @@ def searchsorted(a, v, side='left', sorter=None):
     A = _flat(a)
     if sorter is not None:
         A = [A[i] for i in _flat(sorter)]
-    if any(isinstance(x, S) for x in A):
-        raise NotEncodable('searchsorted on symbolic values')
+    symbolic = any(isinstance(x, S) for x in A)
+
     def one(x):
-        if isinstance(x, S):
-            raise NotEncodable('searchsorted on symbolic values')
-        return bisect.bisect_left(A, x) if side == 'left' else bisect.bisect_right(A, x)
+        if not symbolic and not isinstance(x, S):
+            return bisect.bisect_left(A, x) if side == 'left' else bisect.bisect_right(A, x)
+        # binary search as NumPy does it on a sorted array: forks on the symbolic comparisons
+        lo, hi = 0, len(A)
+        while lo < hi:
+            mid = (lo + hi) // 2
+            if bool(A[mid] < x) if side == 'left' else bool(A[mid] <= x):
+                lo = mid + 1
+            else:
+                hi = mid
+        return lo
     if isinstance(v, (ndarray, list, tuple)):
         return ndarray(_np.array([one(x) for x in _flat(v)], dtype=_np.int64), _raw=True)
     return one(v)
